@@ -133,6 +133,24 @@ def _cases(draw, tier):
         placements.append({'base': base, 'ops': ops})
     consts = dict(consts)
     consts.update(minted)
+    if same_text and not twin and draw(st.booleans()):
+        # the repeated statement written with plain decimal numbers only (names and other notations replaced by their values)
+        table0 = dict(consts_all)
+        table0.update(minted)
+
+        def plain(x):
+            if isinstance(x, dict):
+                return {k: plain(v) for k, v in x.items()}
+            if isinstance(x, list):
+                if len(x) == 2 and x[0] == 'lab' and x[1] in table0:
+                    v = table0[x[1]]
+                    return ['neg', ['num', -v, 'dec']] if v < 0 else ['num', v, 'dec']
+                if len(x) == 3 and x[0] == 'num':
+                    return ['num', x[1], 'dec']
+                return [plain(v) for v in x]
+            return x
+        for pl in placements:
+            pl['ops'] = [plain(o) for o in pl['ops']]
     if twin:
         every = dict(consts)
         if fwd <= ghi:
